@@ -1294,6 +1294,15 @@ class Interp:
                 from .builtins_model import del_item
 
                 del_item(self, base, key, t)
+            elif isinstance(t, ast.Attribute):
+                o = self.eval(t.value, frame)
+                if not isinstance(o, SObj):
+                    raise Unsupported("del attribute of a non-object")
+                if t.attr not in o.fields and not o.lazy:
+                    self.raise_exc(AttributeError, t.attr, t)
+                o.fields.pop(t.attr, None)
+                o.lazy = False if not o.lazy else o.lazy
+                o.ghost.setdefault("deleted", set()).add(t.attr)
             else:
                 raise Unsupported("del target")
 
